@@ -25,5 +25,24 @@ for f in sorted((V / "seeded").glob("*/meta.json")):
     m = json.loads(f.read_text())
     out.append(f"| {m['id']} | {m['breaks_property']} | {m['needs_to_manifest']} | {'yes' if m['check_outcome']['caught'] else '**no**'} | "
                f"{'yes' if m['check_outcome']['with_concrete_replay'] else 'no'} |\n")
+# ---- §13: last evidence per property
+out.append("\n## 13. What the last committed quick run covered (from `evidence/*.json`)\n\n"
+           "| property | theorems (obligations = discharged) | translated functions | cases | distinct non-trivial | compared in Coq | known findings hit | wall s |\n|---|---|---|---|---|---|---|---|\n")
+for f in sorted((V / "evidence").glob("C*.json")):
+    e = json.loads(f.read_text()); c = e["coverage"]
+    out.append(f"| {e['property_id']} | {c.get('obligations')} = {c.get('discharged')} | {len(c.get('translated_functions', []) or [])} | {c.get('evaluations')} | "
+               f"{c.get('distinct_nontrivial')} | {c.get('traces_validated_against_impl')} | {len(c.get('known_findings_hit', []))} | {e.get('wall_s')} |\n")
+# ---- §14: known findings and repaired defects
+kf = json.loads((V / "known_findings.json").read_text())
+out.append("\n## 14. Known findings (recorded, not repaired) and repaired defects (`known_findings.json`)\n\n"
+           "A finding is listed when the check shows a genuine violation with a concrete input and no small safe repair exists; "
+           "the check prints `KNOWN-FINDING` for exactly these signatures and exits 0. A `fixed:` entry suppresses nothing.\n\n"
+           "### Known findings\n\n| property | signature | what fails |\n|---|---|---|\n")
+for x in kf.get("findings", []):
+    sig = x.get("signature") or (x.get("signature_prefix", "") + "*")
+    out.append(f"| {x['property']} | `{sig}` | {x['what'].replace('|', '/')[:400]} |\n")
+out.append(f"\n### Repaired defects ({len(kf.get('fixed', []))} `fixed:` entries)\n\n")
+for x in kf.get("fixed", []):
+    out.append("* " + x.replace("|", "/")[:420] + "\n")
 (V / "DESIGN.md").write_text("".join(out))
 print("DESIGN.md rebuilt:", len("".join(out).splitlines()), "lines")
